@@ -5,7 +5,7 @@
 # usage: tools/determinism.sh <first_seed> <last_seed> [checks...]      exit 0 iff no digest differs
 cd "$(dirname "$0")/.."
 first=${1:-1}; last=${2:-3}; shift 2
-checks=${@:-C02 C05 C11 C13 C14 C20}
+checks=${@:-C02 C05 C11 C13 C14 C18 C20}
 tmp=$(mktemp -d /tmp/verif_det_XXXX)
 export VERIF_REPLAY_DIR=$tmp/replays
 bad=0; total=0
